@@ -263,6 +263,21 @@ class AnyMethod(DeserializationMethod):
         return data
 
 
+def copy_any(data: Any) -> Any:
+    if isinstance(data, dict):
+        return {key: copy_any(value) for key, value in data.items()}
+    elif isinstance(data, list):
+        return [copy_any(elt) for elt in data]
+    else:
+        return data
+
+
+@dataclass
+class AnyCopyMethod(AnyMethod):
+    def deserialize(self, data: Any) -> Any:
+        return copy_any(super().deserialize(data))
+
+
 @dataclass
 class ListCheckOnlyMethod(DeserializationMethod):
     constraints: Tuple[Constraint, ...]
